@@ -19,7 +19,14 @@ func init() {
 			"(4) storeCommon writes the parent index before the child entry and only after the parent was found; " +
 			"(6) API revocations go through the token's lease (revokeCommon / revoke-accessor / lease expiry → revokeTree), and only tabled functions call revokeInternal/revokeTreeInternal; " +
 			"(7) the tree walk lists a node's children before revoking it and revokes leaves only; " +
-			"(8) child creation vs. tree revocation must be made atomic by a common lock, a transaction or a re-validation (today none: known finding F3).",
+			"(8) child creation vs. tree revocation must be made atomic by a common lock, a transaction or a re-validation (today none: known finding F3); " +
+			"(9) the cubbyhole destroyer clears the key the router stores under (double-salted key only for root-namespace non-service tokens, CubbyholeID otherwise), reports no silent success, CubbyholeBackend.revoke returns a failed ClearView, and the router (routeCommon) and IsServiceToken discriminate on the same namespace test and the same two service-token prefixes; " +
+			"(10) storeCommon writes the parent index into the parent's namespace view under the parent id salted in the parent's namespace; " +
+			"(11) token creation always passes writeSecondary=true and only create/store reach storeCommon; " +
+			"(12) the token->lease index is written and read through tokenIndexView of the token's namespace, keyed by salted ids, valued with the lease id, and a failed index read aborts lookupLeasesByToken; " +
+			"(13) expiration.revokeCommon reports success after a failed revokeEntry only under force, and Revoke neither forces nor skips the token; " +
+			"(14) revokeTree/revokeOrphan succeed only through the walk/revokeInternal on the salted id of the lease's/caller's token; " +
+			"(15) sys/leases/revoke answers without error only across a successful Revoke/LazyRevoke.",
 		NotDecided: "restart after a prefix of a revocation's writes (crash points); that ClearView removes every cubbyhole key; interleavings other than the declared create-vs-revoke conflict pair; behaviour of the expiration manager's retry queue.",
 		Run:        runC04,
 	})
@@ -582,6 +589,7 @@ func runC04(c *eng.Ctx, thorough bool) {
 			c.Cut(f, "revokeOrphan (children keep living)", ro, eng.G(f, `SudoPrivilege\(\)$`, true), nil)
 		}
 	}
+	runC04Gaps2(c)
 }
 
 // okEdgesOf: success edges of all calls in f matching pat.
